@@ -2,6 +2,7 @@ import MuscleModel.Reflector.RouteProofs
 import MuscleModel.Reflector.OrderProofs
 import MuscleModel.Reflector.TravProofsCouple
 import MuscleModel.Reflector.Handlers
+import MuscleModel.Reflector.BroadcastProofs
 
 /-!
 # C05 — the wildcard traversal visits exactly the nodes a one-by-one path test selects, once each
@@ -536,6 +537,115 @@ theorem fifo_first_occurrences (sv : Server) (a b tag1 tag2 : Nat) (keys1 keys2 
   · rw [e3]; exact od_idxOf_lt hm1 hfresh
   · apply List.idxOf_lt_length_of_mem
     rw [e3]; simp
+
+/-! ## the broadcast fallback: a Message without keys from a session without a default route
+
+Lemmas: `Reflector/BroadcastProofs.lean` (prefix `bc_`).  `sendMsg sv sid tag []` of a session with `hasRouteKeys = false` is the
+third branch of `sendMsg`, `DumbReflectSession::BroadcastToAllSessions(msg, userData, reflect-to-self)`: a fold of `deliver t.sid text`
+over the session table.  `deliver` addresses a session by id, so "once each" needs the ids of the table to be pairwise distinct
+(`(sv.sessions.map (·.sid)).Nodup`; with two entries of one id the fold would append to the first of them twice).  The hypothesis holds
+in every reachable state: `Props/C05Reach.lean` (`broadcast_exactly_once_reach`, for `RReach`; a separate file because the id-counter
+lemmas it needs, `Reflector/MirrorProofs24.lean`, import this file).  `msgText sid tag` (OrderProofs.lean) is the exact text `sendMsg`
+builds (`broadcast_text` below, by `rfl`). -/
+
+theorem broadcast_text (sid tag : Nat) : msgText sid tag = "MSG 1234 from=" ++ toString sid ++ " tag=" ++ toString tag := rfl
+
+/-- The whole session table after a broadcast: position by position the old session, with one copy of the text appended to its inbox
+    iff it is selected (another id than the sender's, or the sender has reflect-to-self), and nothing else changed. -/
+theorem broadcast_session_table (sv : Server) (hnd : (sv.sessions.map (·.sid)).Nodup) (sid tag : Nat) (s : Sess)
+    (hs : sv.sess? sid = some s) (hk : s.hasRouteKeys = false) :
+    (sendMsg sv sid tag []).sessions =
+      sv.sessions.map (fun t => if t.sid ≠ sid ∨ s.reflectSelf = true then { t with inbox := t.inbox ++ [msgText sid tag] } else t) := by
+  rw [bc_sendMsg sv sid tag s hs hk, bc_fold_sessions _ _ _ sv hnd]
+  apply List.map_congr_left
+  intro t _
+  unfold bcStep
+  by_cases h : t.sid ≠ sid ∨ s.reflectSelf = true
+  · rw [if_pos h, if_pos (by simpa using h)]; rfl
+  · rw [if_neg h, if_neg (by simpa using h)]
+
+/-- **Broadcast: exactly once to every selected session, nothing to the others, nothing else touched.**
+    Session ids pairwise distinct, the sender `sid` present (`s`), no default route, no keys.  Then for every session `t` of the table
+    the session found under `t`'s id afterwards is `t` with its inbox replaced by `t.inbox ++ [text]` if `t` is selected
+    (`t.sid ≠ sid ∨ s.reflectSelf`) and by `t.inbox` itself otherwise — every other field of the session as before; the table has the
+    same ids in the same order; the node tree and every other field of the server are unchanged. -/
+theorem broadcast_exactly_once (sv : Server) (hnd : (sv.sessions.map (·.sid)).Nodup) (sid tag : Nat) (s : Sess)
+    (hs : sv.sess? sid = some s) (hk : s.hasRouteKeys = false) :
+    (∀ t ∈ sv.sessions, ∃ t', (sendMsg sv sid tag []).sess? t.sid = some t' ∧
+        t'.inbox = (if t.sid ≠ sid ∨ s.reflectSelf = true then t.inbox ++ [msgText sid tag] else t.inbox) ∧
+        { t' with inbox := t.inbox } = t) ∧
+    (sendMsg sv sid tag []).sessions.map (·.sid) = sv.sessions.map (·.sid) ∧
+    (sendMsg sv sid tag []).root = sv.root ∧
+    (sendMsg sv sid tag []).live = sv.live ∧
+    (sendMsg sv sid tag []).nextSid = sv.nextSid ∧
+    (sendMsg sv sid tag []).subsDirty = sv.subsDirty ∧
+    (sendMsg sv sid tag []).maxItemsDefault = sv.maxItemsDefault := by
+  have htab := broadcast_session_table sv hnd sid tag s hs hk
+  refine ⟨?_, ?_, ?_⟩
+  · intro t ht
+    have hg : ∀ u : Sess, (if u.sid ≠ sid ∨ s.reflectSelf = true then { u with inbox := u.inbox ++ [msgText sid tag] } else u).sid
+        = u.sid := by
+      intro u; split <;> rfl
+    refine ⟨(if t.sid ≠ sid ∨ s.reflectSelf = true then { t with inbox := t.inbox ++ [msgText sid tag] } else t), ?_, ?_, ?_⟩
+    · unfold Server.sess?
+      rw [htab, bc_find_map _ hg, bc_find_of_mem hnd ht]
+      rfl
+    · by_cases h : t.sid ≠ sid ∨ s.reflectSelf = true
+      · rw [if_pos h, if_pos h]
+      · rw [if_neg h, if_neg h]
+    · by_cases h : t.sid ≠ sid ∨ s.reflectSelf = true
+      · rw [if_pos h]
+      · rw [if_neg h]
+  · rw [htab, List.map_map]
+    apply List.map_congr_left
+    intro u _
+    simp only [Function.comp]
+    split <;> rfl
+  · rw [bc_sendMsg sv sid tag s hs hk]
+    exact bc_fold_frame _ _ _ _ sv
+
+/-- **The sender is excluded unless it asked for reflect-to-self**: its own inbox gets one copy of the text iff `reflectSelf`, and is
+    untouched otherwise. -/
+theorem broadcast_sender_excluded_unless_reflect (sv : Server) (hnd : (sv.sessions.map (·.sid)).Nodup) (sid tag : Nat) (s : Sess)
+    (hs : sv.sess? sid = some s) (hk : s.hasRouteKeys = false) :
+    ∃ s', (sendMsg sv sid tag []).sess? sid = some s' ∧
+      s'.inbox = (if s.reflectSelf = true then s.inbox ++ [msgText sid tag] else s.inbox) ∧
+      { s' with inbox := s.inbox } = s := by
+  have hsid : s.sid = sid := by
+    have := List.find?_some hs
+    simpa using this
+  obtain ⟨s', h1, h2, h3⟩ := (broadcast_exactly_once sv hnd sid tag s hs hk).1 s (rt_sess?_mem hs)
+  rw [hsid] at h1
+  refine ⟨s', h1, ?_, h3⟩
+  rw [h2]
+  simp only [hsid, ne_eq, not_true_eq_false, false_or]
+
+/-- every other session gets exactly one copy, whatever the sender's reflect-to-self setting -/
+theorem broadcast_others_once (sv : Server) (hnd : (sv.sessions.map (·.sid)).Nodup) (sid tag : Nat) (s : Sess)
+    (hs : sv.sess? sid = some s) (hk : s.hasRouteKeys = false) (t : Sess) (ht : t ∈ sv.sessions) (hne : t.sid ≠ sid) :
+    ∃ t', (sendMsg sv sid tag []).sess? t.sid = some t' ∧ t'.inbox = t.inbox ++ [msgText sid tag] ∧
+      { t' with inbox := t.inbox } = t := by
+  obtain ⟨t', h1, h2, h3⟩ := (broadcast_exactly_once sv hnd sid tag s hs hk).1 t ht
+  refine ⟨t', h1, ?_, h3⟩
+  rw [h2, if_pos (Or.inl hne)]
+
+/-! Non-vacuity: three sessions on two hosts.  Session 0 (no default route, no reflect-to-self) broadcasts tag 7: sessions 1 and 2 get
+    one copy each, session 0 none.  After `param self` of session 0 the broadcast of tag 8 also comes back to session 0, once. -/
+def exBcSv : Server := (attach (attach (attach {} 0 [104]).1 1 [104]).1 2 [105]).1
+def exBcSvSelf : Server := runCmd exBcSv 0 .paramSelf
+
+example : RReach exBcSv := .attach _ _ (.attach _ _ (.attach _ _ .init))
+example : RReach exBcSvSelf := .cmd _ _ (.attach _ _ (.attach _ _ (.attach _ _ .init)))
+/-- the hypotheses of `broadcast_exactly_once` hold in both states for the sender 0 -/
+example : (exBcSv.sessions.map (·.sid)).Nodup ∧ (exBcSvSelf.sessions.map (·.sid)).Nodup ∧
+    (exBcSv.sess? 0).map (fun s => (s.hasRouteKeys, s.reflectSelf)) = some (false, false) ∧
+    (exBcSvSelf.sess? 0).map (fun s => (s.hasRouteKeys, s.reflectSelf)) = some (false, true) := by decide
+example : exBcSv.sessions.map (fun t => (t.sid, t.inbox)) = [(0, []), (1, []), (2, [])] ∧
+    (sendMsg exBcSv 0 7 []).sessions.map (fun t => (t.sid, t.inbox)) = [(0, []), (1, [msgText 0 7]), (2, [msgText 0 7])] ∧
+    (sendMsg exBcSvSelf 0 8 []).sessions.map (fun t => (t.sid, t.inbox)) =
+      [(0, [msgText 0 8]), (1, [msgText 0 8]), (2, [msgText 0 8])] ∧
+    (sendMsg exBcSv 1 9 []).sessions.map (fun t => (t.sid, t.inbox)) = [(0, [msgText 1 9]), (1, []), (2, [msgText 1 9])] := by decide
+example : (sendMsg exBcSv 0 7 []).root = exBcSv.root := rfl
 
 /-! Non-vacuity: two sessions; session 0 broadcasts tag 7, session 1 pings, pending updates are pushed, session 0 broadcasts
     tag 8.  Both broadcasts reach session 1 (its inbox changes each time), tag 8 is fresh, and the order is as sent. -/
